@@ -12,7 +12,7 @@ PROBES = [nc.PROBE]
 
 MANIFEST = dict(
     text='itoa<int>, fast_atoi<int> and modp_dtoa are transcribed to TLA+ next to their meaning (canonical decimal numeral; exact decimal expansion of a binary fraction by long multiplication, correct rounding with tie detection, the set of texts with at most p fraction digits denoting the rounded value). TLC checks Atoi(Itoa(n)) = n and canonical form over boundary/dense/spread integers, and correct rounding of the modp_dtoa transcription for every x = +-(w + k/4096), k in 0..4095, w around 0, 10^k and INT_MAX, every precision 0..9 (a family on which the floating point product in the code is exact, so the transcription is the code). The real Field<int>/itoa/fast_atoi and Field<double>/modp_dtoa/fast_atof are then run on the exported families, on decimal-literal doubles (the values next to rounding midpoints), on seeded random doubles below 2^31 and on the rendered texts; TLC validates every recorded conversion by recomputing the exact decimal expansion of the double from its 12-bit limbs (trace validation), so the verdict on arbitrary doubles is also taken in TLA+.',
-    note='TLA+ does not range over IEEE doubles: the model check is exhaustive only on the 12-bit dyadic family; wider doubles are seeded samples judged exactly by the monitor. Readings: exact ties accept either neighbour; trailing zeros optional; half a unit in the last place = half a unit of the last printed decimal place. The stride sweep of the int32 range against libc is a supplement that only selects inputs for the monitor. Trusts TLC, the probe, Python Fraction for double -> limbs.',
+    note='TLA+ does not range over IEEE doubles: the model check is exhaustive only on the 12-bit dyadic family; wider doubles are seeded samples judged exactly by the monitor. Readings: exact ties accept either neighbour; trailing zeros optional; a parse is accepted if it is within half a unit of the last printed decimal place or is the double nearest to the text. The stride sweep of the int32 range against libc is a supplement that only selects inputs for the monitor. Trusts TLC, the probe, Python Fraction for double -> limbs.',
     tech='TLA+ transcription + TLC exhaustive check over bounded families; spec-exported and seeded inputs replayed on the real code under ASan/UBSan; TLC trace validation with exact rational arithmetic',
     ref='5.3, 6 C08')
 
@@ -289,11 +289,11 @@ def run(ctx):
     for i in picks:
         ctx.sample({"command": command(cases[i]), "monitor_event": mon[i]})
     ctx.trusted = ["TLC", "probe_num (moves data only)", "Python fractions.Fraction for the exact value of a double (12-bit limbs)",
-                   "regular expression splitting a numeral into sign / whole / fraction (re-checked by the monitor: DecText(t) = text)",
+                   "regular expression splitting a numeral into sign / whole / fraction (re-checked by the monitor: DecText(t) = text)", "math.nextafter for the doubles next to a parsed value",
                    "UBSan/ASan for undefined behaviour inside the conversions"]
     ctx.assumptions = ["TLA+ cannot range over IEEE doubles: exhaustive only on x = +-(w + k/4096); other doubles are samples judged exactly",
                        "exact decimal ties: either neighbour accepted; trailing zeros optional; zero may carry a sign",
-                       "half a unit in the last place = half a unit of the last printed decimal place of the parsed text",
+                       "parse clause: accepted if within half a unit of the last printed decimal place of the text, or if no neighbouring double is closer to the text (whichever grid is coarser decides)",
                        "non-finite values and magnitudes >= 2^31 are outside the property"]
     nc.guard_truncation(ctx)
 
